@@ -6,7 +6,8 @@
 (* satisfies ConsumeAllowed / ProduceAllowed.                                *)
 EXTENDS Codecs, TLC
 
-CONSTANTS MaxContent, MaxChunks, MaxChunk
+CONSTANTS MaxContent, MaxChunks, MaxChunk,
+          MaxSeq          \* steps per history of successive Consume calls (Part A2)
 
 ContentBytes == [i \in 1..MaxContent |-> i]
 
@@ -64,12 +65,29 @@ PickConsumer(codec) ==
 PickProducer(codec) ==
   \E p \in ProducerCfgs(codec, cfg) : ProducerRelevant(p) /\ kind' = "produce" /\ cfg' = p /\ out' = Produce(p)
 
+(* Part A2: histories of successive Consume calls, grown step by step *)
+SeqContents == { <<1>>, <<2, 3>>, <<4, 5, 6>>, <<>> }
+SeqSteps(h) ==
+  { [op |-> "consume", dst |-> d, content |-> ct, target |-> 0] : d \in SeqDst, ct \in SeqContents }
+  \cup { [op |-> "mutate", dst |-> "", content |-> <<>>, target |-> t] :
+           t \in { j \in 1..Len(h) : h[j].op = "consume" /\ h[j].dst \in ByteKindDst } }
+
+GrowSeq ==
+  /\ kind \in {"none", "seq"}
+  /\ LET h == IF kind = "none" THEN <<>> ELSE cfg.hist IN
+     /\ Len(h) < MaxSeq
+     /\ \E st \in SeqSteps(h) :
+          /\ kind' = "seq" /\ cfg' = [hist |-> Append(h, st)]
+          /\ out' = SeqRun(cfg'.hist, Len(cfg'.hist))
+
 Next == \/ PickScript
+        \/ GrowSeq
         \/ kind = "script" /\ (PickConsumer("bytes") \/ PickConsumer("text") \/ PickProducer("bytes") \/ PickProducer("text"))
 Spec == Init /\ [][Next]_vars
 
 PropertyHolds ==
   CASE kind = "consume" -> ConsumeAllowed(cfg, out)
     [] kind = "produce" -> ProduceAllowed(cfg, out)
+    [] kind = "seq"     -> SeqWellFormed(cfg.hist) /\ out.held = ExpectedHeld(cfg.hist, Len(cfg.hist))
     [] OTHER -> TRUE
 =============================================================================
